@@ -14,6 +14,7 @@ mod emit;
 mod eprops;
 mod gen;
 mod replay;
+mod vchecks;
 mod vprops;
 
 use common::*;
@@ -28,6 +29,9 @@ pub fn dispatch(rc: &RunCtx) -> Outcome {
         "C01" | "C02" | "C03" | "C04" | "C05" | "C06" | "C08" | "C11" | "C12" | "C13" | "C16" | "C19" => bprops::run(rc),
         "C07" => eprops::run_c07(rc),
         "C09" => c09::run(rc),
+        "C10" => vchecks::run_c10(rc),
+        "C14" => vchecks::run_c14(rc),
+        "C17" => vchecks::run_c17(rc),
         _ => usage(),
     }
 }
